@@ -84,6 +84,38 @@ def run_one(m, keep=False):
             shutil.rmtree(d, ignore_errors=True)
 
 
+def view_consistency():
+    """every rule must also hold on the inlined views (analysis/inline.py) of the unchanged tree: a view is the same program, so a rule
+    that fails there would raise a false alarm on a tree where a helper has been merged into its callers"""
+    sys.path.insert(0, os.path.join(VERIF, "analysis"))
+    import extract, registry, inline
+    from core import Facts
+    from engine import Ctx, view_ctx, _apply
+    path, work, secs = extract.extract(REPO, "F1")
+    bad = 0
+    try:
+        ctx = Ctx(Facts(path), repo=REPO)
+        ctx.verif = VERIF
+        for policy in inline.VIEWS:
+            v = view_ctx(ctx, policy)
+            if v is None:
+                print("%-14s %-9s %-40s" % ("BROKEN", "views", "view-" + policy))
+                bad += 1
+                continue
+            viol = []
+            for rid in registry.RULES:
+                if rid in ("W-witness", "X-contract", "F-diff"):
+                    continue
+                R = _apply(v, rid)
+                viol += [x.key for x in R.violations]
+            print("%-14s %-9s %-40s        %s" % ("ok" if not viol else "FALSE-ALARM", "views", "view-%s (%d calls inlined)" % (policy, len(v.inlined)),
+                                               "every rule holds on the view" if not viol else viol[:6]))
+            bad += 1 if viol else 0
+    finally:
+        shutil.rmtree(work, ignore_errors=True)
+    return bad
+
+
 def main():
     args = sys.argv[1:]
     jobs = 6
@@ -105,6 +137,8 @@ def main():
             print("%-14s %-9s %-40s %5.1fs  %s" % (status, m["kind"], m["name"], secs, detail[:400]))
             if status != "ok":
                 bad += 1
+    if not pats or "views" in pats:
+        bad += view_consistency()
     print("selftest: %d mutants, %d problems" % (len(ms), bad))
     return 1 if bad else 0
 
